@@ -2638,6 +2638,79 @@ Section RT.
       repeat (rewrite blen_app || rewrite blen_cons). rewrite ?blen_nil. lia.
   Qed.
 
+  Lemma step_attr : forall o name body rest R line off ll, wf_sdef (SAttr o name body) ->
+    print_def (SAttr o name body) ++ rest = kw_attribute ++ 32 :: R ->
+    (length (print_def (SAttr o name body)) + 4 <= F)%nat ->
+    exists st', parse_attribute il id F (canon line off kw_attribute 32 R ll)
+                = POk (elab_def line off (SAttr o name body)) st'
+                /\ Ready (line + 1) (off + blen (print_def (SAttr o name body))) rest st'.
+  Proof.
+    intros o name body rest R line off ll (Hname & Hbody) HR HF.
+    assert (Hk : blen kw_attribute = 7) by reflexivity.
+    pose proof (blen_nonneg name). pose proof (blen_nonneg (print_attr_body body)).
+    destruct (attr_body_head body (59 :: 10 :: rest)) as (T & ET).
+    set (pos0 := {| p_line := line; p_column := 1; p_offset := off |}).
+    rewrite parse_attribute_unfold.
+    destruct o; cbn [print_attr_obj] in *.
+    - (* no object type: the quote is peeked by optionalObjectType *)
+      cbn [print_def print_attr_obj] in *. unfold print_quoted in *.
+      rewrite <- app_assoc in HR. apply app_inv_head in HR. cbn [app] in HR. injection HR as <-.
+      repeat (rewrite <- app_assoc; cbn [app]). repeat (rewrite app_length in HF || cbn [length] in HF).
+      unfold kw_attribute in HF. cbn [length] in HF. rewrite ET.
+      unfold canon. unfold bind at 1. rewrite p_keyword_canon. rewrite stepS_plain by discriminate.
+      unfold bind at 1.
+      match goal with |- context [optional_object_type il id F (PS (mkS _ ?LA ?PP ?LL ?KK ?L2 32 ws_default) None)] =>
+        destruct (quote_peek name 32 T LA PP LL KK L2 (ident_plain name Hname) ltac:(unfold ascii; lia) ltac:(lia) ltac:(lia))
+          as (tk & st1 & Epk & Ety) end.
+      rewrite (opt_obj_none _ _ _ Epk Ety). unfold bind at 1.
+      rewrite (psi_after_peek _ _ _ Epk). rewrite p_string_identifier_ws by side. rewrite stepS_plain by discriminate.
+      match goal with |- context [PS (mkS T ?LA ?PP ?LL ?KK ?L2 32 ws_default) None] =>
+        destruct (attr_cont_run pos0 OtUnspecified name body rest T LA PP LL KK L2 Hbody (eq_sym ET) ltac:(lia) ltac:(lia))
+          as (st' & E & HRd) end.
+      exists st'. split; [exact E|]. ready_at HRd.
+      repeat (rewrite blen_app || rewrite blen_cons). rewrite ?blen_nil. lia.
+    - prep HR HF kw_attribute. unfold kw_nodes in HF. cbn [length] in HF. assert (Hk2 : blen kw_nodes = 3) by reflexivity. rewrite ET.
+      unfold canon. unfold bind at 1. rewrite p_keyword_canon. rewrite stepS_plain by discriminate.
+      match goal with |- context [mkS (66 :: 85 :: 95 :: 32 :: ?X)] => change (66 :: 85 :: 95 :: 32 :: X) with (kw_nodes ++ 32 :: X) end.
+      unfold bind at 1. rewrite (opt_obj_kw kw_nodes OtNode) by side. rewrite stepS_plain by discriminate.
+      unfold bind at 1. rewrite p_string_identifier_ws by side. rewrite stepS_plain by discriminate.
+      match goal with |- context [PS (mkS T ?LA ?PP ?LL ?KK ?L2 32 ws_default) None] =>
+        destruct (attr_cont_run pos0 OtNode name body rest T LA PP LL KK L2 Hbody (eq_sym ET) ltac:(lia) ltac:(lia))
+          as (st' & E & HRd) end.
+      exists st'. split; [exact E|]. ready_at HRd.
+      cbn [print_def print_attr_obj]. unfold print_quoted. repeat (rewrite blen_app || rewrite blen_cons). rewrite ?blen_nil. lia.
+    - prep HR HF kw_attribute. unfold kw_message in HF. cbn [length] in HF. assert (Hk2 : blen kw_message = 3) by reflexivity. rewrite ET.
+      unfold canon. unfold bind at 1. rewrite p_keyword_canon. rewrite stepS_plain by discriminate.
+      match goal with |- context [mkS (66 :: 79 :: 95 :: 32 :: ?X)] => change (66 :: 79 :: 95 :: 32 :: X) with (kw_message ++ 32 :: X) end.
+      unfold bind at 1. rewrite (opt_obj_kw kw_message OtMessage) by side. rewrite stepS_plain by discriminate.
+      unfold bind at 1. rewrite p_string_identifier_ws by side. rewrite stepS_plain by discriminate.
+      match goal with |- context [PS (mkS T ?LA ?PP ?LL ?KK ?L2 32 ws_default) None] =>
+        destruct (attr_cont_run pos0 OtMessage name body rest T LA PP LL KK L2 Hbody (eq_sym ET) ltac:(lia) ltac:(lia))
+          as (st' & E & HRd) end.
+      exists st'. split; [exact E|]. ready_at HRd.
+      cbn [print_def print_attr_obj]. unfold print_quoted. repeat (rewrite blen_app || rewrite blen_cons). rewrite ?blen_nil. lia.
+    - prep HR HF kw_attribute. unfold kw_signal in HF. cbn [length] in HF. assert (Hk2 : blen kw_signal = 3) by reflexivity. rewrite ET.
+      unfold canon. unfold bind at 1. rewrite p_keyword_canon. rewrite stepS_plain by discriminate.
+      match goal with |- context [mkS (83 :: 71 :: 95 :: 32 :: ?X)] => change (83 :: 71 :: 95 :: 32 :: X) with (kw_signal ++ 32 :: X) end.
+      unfold bind at 1. rewrite (opt_obj_kw kw_signal OtSignal) by side. rewrite stepS_plain by discriminate.
+      unfold bind at 1. rewrite p_string_identifier_ws by side. rewrite stepS_plain by discriminate.
+      match goal with |- context [PS (mkS T ?LA ?PP ?LL ?KK ?L2 32 ws_default) None] =>
+        destruct (attr_cont_run pos0 OtSignal name body rest T LA PP LL KK L2 Hbody (eq_sym ET) ltac:(lia) ltac:(lia))
+          as (st' & E & HRd) end.
+      exists st'. split; [exact E|]. ready_at HRd.
+      cbn [print_def print_attr_obj]. unfold print_quoted. repeat (rewrite blen_app || rewrite blen_cons). rewrite ?blen_nil. lia.
+    - prep HR HF kw_attribute. unfold kw_envvar in HF. cbn [length] in HF. assert (Hk2 : blen kw_envvar = 3) by reflexivity. rewrite ET.
+      unfold canon. unfold bind at 1. rewrite p_keyword_canon. rewrite stepS_plain by discriminate.
+      match goal with |- context [mkS (69 :: 86 :: 95 :: 32 :: ?X)] => change (69 :: 86 :: 95 :: 32 :: X) with (kw_envvar ++ 32 :: X) end.
+      unfold bind at 1. rewrite (opt_obj_kw kw_envvar OtEnvVar) by side. rewrite stepS_plain by discriminate.
+      unfold bind at 1. rewrite p_string_identifier_ws by side. rewrite stepS_plain by discriminate.
+      match goal with |- context [PS (mkS T ?LA ?PP ?LL ?KK ?L2 32 ws_default) None] =>
+        destruct (attr_cont_run pos0 OtEnvVar name body rest T LA PP LL KK L2 Hbody (eq_sym ET) ltac:(lia) ltac:(lia))
+          as (st' & E & HRd) end.
+      exists st'. split; [exact E|]. ready_at HRd.
+      cbn [print_def print_attr_obj]. unfold print_quoted. repeat (rewrite blen_app || rewrite blen_cons). rewrite ?blen_nil. lia.
+  Qed.
+
   (** ------------------------------------------------------------ the whole file *)
 
   Lemma is_ident_version : is_ident kw_version.
@@ -2702,6 +2775,22 @@ Section RT.
     - eexists kw_envvar_data, 32, _. rewrite <- app_assoc. cbn [app].
       split; [reflexivity|]. split; [match goal with |- is_ident ?k => exact (ident_valid_shape k eq_refl) end|]. split; [unfold ascii; lia|]. split; [reflexivity|].
       split; [|reflexivity]. rewrite app_length. cbn [length]. lia.
+    - assert (E : exists R, print_attr_obj ao ++ 32 :: print_quoted an ++ print_attr_body ab ++ [32; 59; 10] = 32 :: R)
+        by (destruct ao; cbn; eexists; reflexivity).
+      destruct E as (R & E). exists kw_attribute, 32, (R ++ rest). rewrite <- app_assoc. rewrite E.
+      split; [reflexivity|]. split; [exact (ident_valid_shape kw_attribute eq_refl)|]. split; [unfold ascii; lia|]. split; [reflexivity|].
+      split; [|reflexivity]. rewrite app_length. cbn [length]. lia.
+    - eexists kw_attribute_default, 32, _. rewrite <- app_assoc. cbn [app].
+      split; [reflexivity|]. split; [exact (ident_valid_shape kw_attribute_default eq_refl)|]. split; [unfold ascii; lia|]. split; [reflexivity|].
+      split; [|reflexivity]. rewrite app_length. cbn [length]. lia.
+    - eexists kw_attribute_value, 32, _. rewrite <- app_assoc. cbn [app].
+      split; [reflexivity|]. split; [exact (ident_valid_shape kw_attribute_value eq_refl)|]. split; [unfold ascii; lia|]. split; [reflexivity|].
+      split; [|reflexivity]. rewrite app_length. cbn [length]. lia.
+  Qed.
+
+  Lemma wf_defs_Forall : forall ds ctx, wf_defs ctx ds -> Forall wf_sdef ds.
+  Proof.
+    induction ds as [|d ds IH]; intros ctx H; [constructor|]. destruct H as ((Hd & _) & H). constructor; [exact Hd|exact (IH _ H)].
   Qed.
 
   Lemma rest_top_print : forall ds, Forall wf_sdef ds -> (length (print ds) + 4 <= F)%nat -> rest_top (print ds).
@@ -2735,19 +2824,20 @@ Section RT.
     let H := fresh in
     pose proof HF as H; cbn [print_def] in H; repeat (rewrite app_length in H || cbn [length] in H);
     unfold kw_comment, kw_value_descriptions, kw_value_table, kw_signal_value_type, kw_message_transmitters, kw_envvar,
-      kw_envvar_data in *; cbn [length] in *; lia.
+      kw_envvar_data, kw_attribute, kw_attribute_default, kw_attribute_value in *; cbn [length] in *; lia.
 
   (** one definition: from the canonical state at its keyword, the dispatched parser returns its
       denotation and leaves the parser ready at the next line *)
-  Lemma step_def : forall d rest defs line off, wf_sdef d -> rest_top rest ->
+  Lemma step_def : forall d rest defs ctx line off, ctx_agrees ctx defs -> wf_sdef_ctx ctx d -> rest_top rest ->
     (length (print_def d) + length rest + 4 <= F)%nat ->
     forall st, Ready line off (print_def d ++ rest) st ->
     exists kw st1 st2, peek_token st = POk (kwtok line off kw) st1 /\ peek_keyword il id F st1 = POk kw st1
-                       /\ the_def defs kw st1 = POk (elab_def line off d) st2
+                       /\ the_def defs kw st1 = POk (elab_def_ctx ctx line off d) st2
                        /\ Ready (line + def_lines d) (off + blen (print_def d)) rest st2.
   Proof.
-    intros d rest defs line off Hw Htop HF st (_ & HR). pose proof (rest_top_ok rest Htop) as Hok.
-    destruct d as [s|[[b [[b1 b2]|]]|]|ns|mi mn msz mtx sigs|kw ts|co ct|[vi|] vn vvs|tn tvs|svi svn svc svt|xi xtxs|en et emn emx eu einit ei eacc enode enodes|dn dsz|ao an ab|dfn dfv|avn avo avv]; cbn [wf_sdef elab_def] in *.
+    intros d rest defs ctx line off Hag Hwc Htop HF st (_ & HR). pose proof (rest_top_ok rest Htop) as Hok.
+    pose proof Hwc as (Hw & Hwv).
+    destruct d as [s|[[b [[b1 b2]|]]|]|ns|mi mn msz mtx sigs|kw ts|co ct|[vi|] vn vvs|tn tvs|svi svn svc svt|xi xtxs|en et emn emx eu einit ei eacc enode enodes|dn dsz|ao an ab|dfn dfv|avn avo avv]; cbn [wf_sdef elab_def elab_def_ctx] in *.
     - (* VERSION *)
       destruct (HR kw_version 32 (34 :: s ++ 34 :: 10 :: rest)) as (ll & Ep);
         [cbn [print_def]; rewrite <- app_assoc; cbn [app]; rewrite <- app_assoc; reflexivity
@@ -2853,23 +2943,44 @@ Section RT.
       destruct (HR kw_envvar_data 32 R ER (ident_valid_shape kw_envvar_data eq_refl)) as (ll & Ep); [unfold ascii; lia|reflexivity|fuel2 HF|].
       destruct (step_envvar_data dn dsz rest R line off ll Hw ER ltac:(lia)) as (st2 & E & HR2).
       eexists kw_envvar_data, _, st2. split; [exact Ep|]. split; [apply peek_keyword_canon|]. split; [exact E|exact HR2].
+    - (* BA_DEF_ *)
+      assert (ER : exists R, print_def (SAttr ao an ab) ++ rest = kw_attribute ++ 32 :: R).
+      { cbn [print_def]. rewrite <- app_assoc. destruct ao; cbn [print_attr_obj app]; eexists; reflexivity. }
+      destruct ER as (R & ER).
+      destruct (HR kw_attribute 32 R ER (ident_valid_shape kw_attribute eq_refl)) as (ll & Ep); [unfold ascii; lia|reflexivity|fuel2 HF|].
+      destruct (step_attr ao an ab rest R line off ll Hw ER ltac:(lia)) as (st2 & E & HR2).
+      eexists kw_attribute, _, st2. split; [exact Ep|]. split; [apply peek_keyword_canon|]. split; [exact E|exact HR2].
+    - (* BA_DEF_DEF_ *)
+      assert (ER : exists R, print_def (SAttrDefault dfn dfv) ++ rest = kw_attribute_default ++ 32 :: R)
+        by (cbn [print_def]; rewrite <- app_assoc; cbn [app]; eexists; reflexivity).
+      destruct ER as (R & ER).
+      destruct (HR kw_attribute_default 32 R ER (ident_valid_shape kw_attribute_default eq_refl)) as (ll & Ep); [unfold ascii; lia|reflexivity|fuel2 HF|].
+      destruct (step_attr_default ctx defs dfn dfv rest R line off ll Hag Hwc ER ltac:(lia)) as (st2 & E & HR2).
+      eexists kw_attribute_default, _, st2. split; [exact Ep|]. split; [apply peek_keyword_canon|]. split; [exact E|exact HR2].
+    - (* BA_ *)
+      assert (ER : exists R, print_def (SAttrValue avn avo avv) ++ rest = kw_attribute_value ++ 32 :: R)
+        by (cbn [print_def]; rewrite <- app_assoc; cbn [app]; eexists; reflexivity).
+      destruct ER as (R & ER).
+      destruct (HR kw_attribute_value 32 R ER (ident_valid_shape kw_attribute_value eq_refl)) as (ll & Ep); [unfold ascii; lia|reflexivity|fuel2 HF|].
+      destruct (step_attr_value ctx defs avn avo avv rest R line off ll Hag Hwc ER ltac:(lia)) as (st2 & E & HR2).
+      eexists kw_attribute_value, _, st2. split; [exact Ep|]. split; [apply peek_keyword_canon|]. split; [exact E|exact HR2].
   Qed.
 
-  Lemma parse_loop_print : forall ds f defs line off st,
-    Forall wf_sdef ds -> (length ds < f)%nat -> (length (print ds) + 4 <= F)%nat ->
+  Lemma parse_loop_print : forall ds f defs ctx line off st,
+    ctx_agrees ctx defs -> wf_defs ctx ds -> (length ds < f)%nat -> (length (print ds) + 4 <= F)%nat ->
     Ready line off (print ds) st ->
-    the_loop f defs st = Ok (defs ++ elab_from line off ds).
+    the_loop f defs st = Ok (defs ++ elab_from ctx line off ds).
   Proof.
-    induction ds as [|d ds IH]; intros f defs line off st Hw Hf HF HR; (destruct f as [|f]; [cbn in Hf; lia|]).
+    induction ds as [|d ds IH]; intros f defs ctx line off st Hag Hw Hf HF HR; (destruct f as [|f]; [cbn in Hf; lia|]).
     - cbn [parse_loop_with print elab_from]. destruct HR as (H1 & _). destruct (H1 eq_refl) as (tok & st' & E & Ht).
       rewrite E, Ht. change (EOF =? EOF) with true. cbv iota. rewrite app_nil_r. reflexivity.
-    - inversion Hw as [|? ? Hd Hw']; subst. cbn [print] in *. rewrite app_length in HF.
-      assert (Htop : rest_top (print ds)) by (apply rest_top_print; [assumption|lia]).
-      destruct (step_def d (print ds) defs line off Hd Htop ltac:(lia) st HR) as (kw & st1 & st2 & Ep & Ek & Ed & HR2).
+    - destruct Hw as (Hd & Hw'). cbn [print] in *. rewrite app_length in HF.
+      assert (Htop : rest_top (print ds)) by (apply rest_top_print; [exact (wf_defs_Forall _ _ Hw')|lia]).
+      destruct (step_def d (print ds) defs ctx line off Hag Hd Htop ltac:(lia) st HR) as (kw & st1 & st2 & Ep & Ek & Ed & HR2).
       cbn [parse_loop_with]. rewrite Ep. cbn [t_typ kwtok]. change (TIdent =? EOF) with false. cbv iota.
       unfold bind. rewrite Ek, Ed. cbn [elab_from].
-      rewrite (IH f (defs ++ [elab_def line off d]) (line + def_lines d) (off + blen (print_def d)) st2 Hw'); try assumption;
-        [|cbn in Hf; lia|lia].
+      rewrite (IH f (defs ++ [elab_def_ctx ctx line off d]) (ctx_step ctx d) (line + def_lines d) (off + blen (print_def d)) st2);
+        try assumption; [|apply ctx_agrees_step; assumption|cbn in Hf; lia|lia].
       rewrite <- app_assoc. reflexivity.
   Qed.
 
@@ -2900,37 +3011,50 @@ Section RT.
   Qed.
 End RT.
 
-Lemma length_print_ge : forall ds, Forall wf_sdef ds -> (length ds <= length (print ds))%nat.
+Lemma length_print_ge : forall ds, (length ds <= length (print ds))%nat.
 Proof.
-  induction ds as [|d ds IH]; intros Hw; cbn [print length]; [lia|]. inversion Hw as [|? ? Hd Hw']; subst.
-  rewrite app_length. specialize (IH Hw').
+  induction ds as [|d ds IH]; cbn [print length]; [lia|].
+  rewrite app_length.
   assert (1 <= length (print_def d))%nat.
-  { destruct d as [s|[[b [[b1 b2]|]]|]|ns|mi mn msz mtx sigs|kw ts|co ct|[vi|] vn vvs|tn tvs|svi svn svc svt|xi xtxs|en et emn emx eu einit ei eacc enode enodes|dn dsz|ao an ab|dfn dfv|avn avo avv]; cbn [print_def]; rewrite !app_length; cbn [length]; lia. }
+  { destruct d as [s|[[b [[b1 b2]|]]|]|ns|mi mn msz mtx sigs|kw ts|co ct|[vi|] vn vvs|tn tvs|svi svn svc svt|xi xtxs|en et emn emx eu einit ei eacc enode enodes|dn dsz|ao an ab|dfn dfv|avn avo avv];
+      cbn [print_def]; rewrite !app_length; cbn [length]; lia. }
   lia.
 Qed.
 
 (** C04, the proved part of the round trip *)
-Theorem parse_print_partial : forall il id ds, Forall wf_sdef ds ->
+Theorem parse_print_partial : forall il id ds, wf_file ds ->
   parse_bytes il id (print ds) = Ok (elaborate ds).
 Proof.
   intros il id ds Hw. unfold parse_bytes, parse, elaborate.
-  pose proof (length_print_ge ds Hw) as Hl.
-  rewrite (parse_loop_print il id (fuel_for (print ds)) ds (fuel_for (print ds)) [] 1 0 (p_init (print ds)) Hw).
+  pose proof (length_print_ge ds) as Hl.
+  rewrite (parse_loop_print il id (fuel_for (print ds)) ds (fuel_for (print ds)) [] [] 1 0 (p_init (print ds))).
   - reflexivity.
+  - intros n. reflexivity.
+  - exact Hw.
   - unfold fuel_for. lia.
   - unfold fuel_for. lia.
   - apply ready_init. unfold fuel_for. lia.
 Qed.
 
+(** files without BA_DEF_DEF_ / BA_ : well-formedness is definition-wise *)
+Definition context_free (d : sdef) : Prop :=
+  match d with SAttrDefault _ _ | SAttrValue _ _ _ => False | _ => True end.
+
+Lemma wf_defs_context_free : forall ds ctx, Forall wf_sdef ds -> Forall context_free ds -> wf_defs ctx ds.
+Proof.
+  induction ds as [|d ds IH]; intros ctx Hw Hc; [exact I|].
+  inversion Hw as [|? ? Hd Hw']; subst. inversion Hc as [|? ? Hcd Hc']; subst.
+  split; [|apply IH; assumption]. split; [exact Hd|]. destruct d; try exact I; contradiction.
+Qed.
 
 (** an unknown line yields exactly one UnknownDef and the following lines are parsed as if it were
     not there (their line numbers and offsets shifted by the one line) *)
-Corollary unknown_one : forall il id kw ts ds, wf_sdef (SUnknown kw ts) -> Forall wf_sdef ds ->
+Corollary unknown_one : forall il id kw ts ds, wf_sdef (SUnknown kw ts) -> wf_file ds ->
   parse_bytes il id (print (SUnknown kw ts :: ds))
   = Ok (DUnknown {| p_line := 1; p_column := 1; p_offset := 0 |} kw
-        :: elab_from 2 (blen (print_def (SUnknown kw ts))) ds).
+        :: elab_from [] 2 (blen (print_def (SUnknown kw ts))) ds).
 Proof.
-  intros il id kw ts ds Hu Hw. rewrite parse_print_partial by (constructor; assumption). reflexivity.
+  intros il id kw ts ds Hu Hw. rewrite parse_print_partial; [reflexivity|]. split; [split; [exact Hu|exact I]|exact Hw].
 Qed.
 
 (** a concrete well-formed source file with all covered kinds (non-vacuity of the hypotheses) *)
@@ -3016,5 +3140,45 @@ Proof.
 Qed.
 
 (** the printed text of the second sample, for the record *)
-Lemma sample2_parses : forall il id, parse_bytes il id (print sample2_ds) = Ok (elaborate sample2_ds).
-Proof. intros. apply parse_print_partial. exact sample2_ds_wf. Qed.
+
+Lemma sample_ds_wf_file : wf_file sample_ds.
+Proof. apply wf_defs_context_free; [exact sample_ds_wf|]. unfold sample_ds. repeat constructor. Qed.
+
+Lemma sample2_ds_wf_file : wf_file sample2_ds.
+Proof. apply wf_defs_context_free; [exact sample2_ds_wf|]. unfold sample2_ds. repeat constructor. Qed.
+
+(** a third sample: attribute definitions, defaults and values (typed by the first BA_DEF_ of the name) *)
+Definition sample3_ds : list sdef :=
+  [ SAttr AONone [65] (ABInt false (Some ({| n_neg := false; n_digits := [48] |}, {| n_neg := false; n_digits := [49; 48; 48] |})));
+                                                                      (* BA_DEF_ "A" INT 0 100 ; *)
+    SAttr AOSignal [69] (ABEnum [120] [[121]]);                       (* BA_DEF_ SG_ "E" ENUM "x" , "y" ; *)
+    SAttr AOMessage [70] (ABFloat None);                              (* BA_DEF_ BO_ "F" FLOAT ; *)
+    SAttr AONode [83] ABString;                                       (* BA_DEF_ BU_ "S" STRING ; *)
+    SAttr AOEnvVar [72] (ABInt true None);                            (* BA_DEF_ EV_ "H" HEX ; *)
+    SAttr AONone [65] ABString;                                       (* BA_DEF_ "A" STRING ;   (second definition: ignored for typing) *)
+    SAttrDefault [65] (AVInt {| n_neg := false; n_digits := [53] |});           (* BA_DEF_DEF_ "A" 5 ; *)
+    SAttrDefault [69] (AVEnumIndex [49]);                                        (* BA_DEF_DEF_ "E" 1 ; *)
+    SAttrDefault [90] AVNone;                                                    (* BA_DEF_DEF_ "Z" ; *)
+    SAttrValue [65] (ObjMessage [49]) (AVInt {| n_neg := true; n_digits := [51] |});     (* BA_ "A" BO_ 1 -3 ; *)
+    SAttrValue [69] (ObjSignal [49] [83]) (AVEnumString [121]);                          (* BA_ "E" SG_ 1 S "y" ; *)
+    SAttrValue [83] (ObjNode [78]) (AVString [116]);                                     (* BA_ "S" BU_ N "t" ; *)
+    SAttrValue [70] ObjNone (AVFloat {| n_neg := false; n_digits := [50] |});            (* BA_ "F" 2 ; *)
+    SAttrValue [72] (ObjEnvVar [86]) (AVInt {| n_neg := false; n_digits := [55] |}) ].   (* BA_ "H" EV_ V 7 ; *)
+
+Lemma sample3_ds_wf_file : wf_file sample3_ds.
+Proof.
+  assert (Hp : forall c, 32 <= c < 127 -> c <> 34 -> c <> 92 -> plain_char c) by (intros; repeat split; lia).
+  assert (Hd : forall d0 t, is_decimal d0 = true -> Forall (fun a => is_decimal a = true) t -> (d0 <> 48 \/ t = []) ->
+               wf_digits (d0 :: t)) by (intros d0 t ? ? ?; exists d0, t; auto).
+  assert (Hn : forall neg d0 t, is_decimal d0 = true -> Forall (fun a => is_decimal a = true) t -> (d0 <> 48 \/ t = []) ->
+               parse_float (d0 :: t) <> None -> wf_num {| n_neg := neg; n_digits := d0 :: t |}) by (intros; split; cbn; auto).
+  assert (Hm : wf_msgid [49]).
+  { split; [|reflexivity]. split; [apply Hd; [reflexivity|constructor|right; reflexivity]|vm_compute; reflexivity]. }
+  unfold wf_file, sample3_ds. cbn [wf_defs ctx_step app attr_body_type attr_body_enums].
+  unfold wf_sdef_ctx, wf_attr_value. cbn [wf_sdef wf_attr_body wf_range wf_obj lookup_ctx bytes_eqb Z.eqb Pos.eqb andb].
+  repeat split; try exact Hm; try reflexivity; try exact I;
+    try (apply Hn; [reflexivity | repeat constructor | (left; lia) || (right; reflexivity) | vm_compute; discriminate]);
+    try (repeat constructor; apply Hp; lia);
+    try (apply Hd; [reflexivity | repeat constructor | right; reflexivity]);
+    try (vm_compute; reflexivity).
+Qed.
